@@ -71,7 +71,7 @@ func SetupServer(issuer string, storage Storage, logger *slog.Logger, wrapServer
 
 	handler := http.Handler(provider)
 	if wrapServer {
-		handler = op.RegisterLegacyServer(op.NewLegacyServer(provider, *op.DefaultEndpoints), op.AuthorizeCallbackHandler(provider))
+		handler = op.RegisterLegacyServer(op.NewLegacyServer(provider, endpointsOf(provider)), op.AuthorizeCallbackHandler(provider))
 	}
 
 	// we register the http handler of the OP on the root, so that the discovery endpoint (/.well-known/openid-configuration)
@@ -133,4 +133,19 @@ func newOP(storage op.Storage, issuer string, key [32]byte, logger *slog.Logger,
 		return nil, err
 	}
 	return handler, nil
+}
+
+// endpointsOf returns the endpoints the provider was configured with,
+// so that the LegacyServer routes and advertises the same paths.
+func endpointsOf(provider op.OpenIDProvider) op.Endpoints {
+	return op.Endpoints{
+		Authorization:       provider.AuthorizationEndpoint(),
+		Token:               provider.TokenEndpoint(),
+		Introspection:       provider.IntrospectionEndpoint(),
+		Userinfo:            provider.UserinfoEndpoint(),
+		Revocation:          provider.RevocationEndpoint(),
+		EndSession:          provider.EndSessionEndpoint(),
+		JwksURI:             provider.KeysEndpoint(),
+		DeviceAuthorization: provider.DeviceAuthorizationEndpoint(),
+	}
 }
